@@ -164,7 +164,12 @@ class Dispatcher:
         # verify range
         value = pobj.datatype.validate(value, previous=pobj.value)
         # note: exceptions are handled in handle_request, not here!
-        getattr(moduleobj, 'write_' + pname)(value)
+        writefunc = getattr(moduleobj, 'write_' + pname, None)
+        if writefunc:
+            writefunc(value)
+        else:
+            # made writable by the configuration, the class has no write method
+            setattr(moduleobj, pname, value)
         # return value is ignored here, as already handled
         return pobj.export_value(), {'t': pobj.timestamp} if pobj.timestamp else {}
 
